@@ -1,5 +1,11 @@
 //! Per-property workloads and budgets.
 
+pub mod c02;
+pub mod c04;
+pub mod c06;
+pub mod c14;
+pub mod c18;
+
 use crate::cfg::{gen_cfg, Cfg};
 use crate::engine::{self, Spec};
 use crate::gen::Domain;
@@ -25,6 +31,34 @@ fn spec(a: &Args, tag: &'static str, histories: u64, steps: (usize, usize), mut 
     let only = if a.tag.as_deref().map(|t| t == tag).unwrap_or(true) { a.only } else { None };
     let histories = if a.only.is_some() && only.is_none() { 0 } else { histories };
     Spec { tag, histories, steps, domain, cfg_gen, prepop, contract, only, seed: a.seed, workers: a.workers }
+}
+
+/// Runs `f(args, index, acc)` for every index of `0..n` (or only `--only` when the tag matches) on the worker pool.
+pub fn par_run(a: &Args, tag: &str, n: u64, f: impl Fn(&Args, u64, &mut Acc) + Sync) -> Acc {
+    let (lo, hi) = match (a.only, a.tag.as_deref()) {
+        (Some(i), Some(t)) if t == tag => (i, i + 1),
+        (Some(i), None) => (i, i + 1),
+        (Some(_), _) => (0, 0),
+        _ => (0, n),
+    };
+    let next = std::sync::atomic::AtomicU64::new(lo);
+    let total = std::sync::Mutex::new(Acc::new());
+    std::thread::scope(|s| {
+        for _ in 0..a.workers.max(1) {
+            s.spawn(|| {
+                let mut acc = Acc::new();
+                loop {
+                    let i = next.fetch_add(1, std::sync::atomic::Ordering::SeqCst);
+                    if i >= hi {
+                        break;
+                    }
+                    f(a, i, &mut acc);
+                }
+                total.lock().unwrap().merge(acc);
+            });
+        }
+    });
+    total.into_inner().unwrap()
 }
 
 // ---- configuration families
@@ -116,6 +150,36 @@ pub fn dispatch(a: &Args) -> Option<(Acc, RunMeta)> {
             acc.merge(engine::run(&spec(a, "c12-untyped", a.n(1200, 30000), (10, 25), Domain::untyped(), cfg_any, true, None)));
             acc.merge(engine::run(&spec(a, "c12-ovl", a.n(800, 20000), (10, 25), Domain::untyped(), cfg_overlay_top, true, None)));
             Some((acc, meta(a, "every Err returned by any operation or observer of typed/untyped histories on all configurations (adapter stackings to depth 3) is checked: label not the placeholder, label related to the call path/destination, kind rules (missing entry -> NotFound, occupied create_dir -> File/DirectoryExists, NotSupported); distinct = distinct observable states", ENGINE_ASSUMPTIONS)))
+        }
+        "C02" => {
+            let acc = c02::run(a);
+            Some((acc, meta(a, "seeded random histories (8-25 steps; wrong-type calls, overwrites, re-creations, reader seek/read scripts, contents around 8 KiB, non-UTF-8) executed in lock-step on a fresh MemoryFS and a fresh PhysicalFS (tmpfs): success/failure of every call, not-found / already-exists error classes where the property demands them, return values, and the full observable snapshot of both after every step must agree; distinct = distinct observable states", ENGINE_ASSUMPTIONS)))
+        }
+        "C04" => {
+            let mut d = Domain::typed();
+            d.rich_scripts = true;
+            d.append_seeks = true;
+            d.big_content_permille = 250;
+            d.weights = vec![("create_file", 10), ("append_file", 9), ("copy_file", 4), ("move_file", 3), ("open_read", 2), ("metadata", 2), ("create_dir", 3), ("read_to_string", 2), ("copy_dir", 1), ("move_dir", 1)];
+            let mut acc = engine::run(&spec(a, "c04-engine", a.n(1500, 30000), (6, 16), d, cfg_any, true, Some("C04")));
+            acc.merge(c04::run(a));
+            Some((acc, meta(a, "(A) engine histories dominated by write sessions with write/seek/flush scripts (append seeks on memory-backed configurations only), contents 0..16384 bytes incl. the 8 KiB copy-buffer boundary and non-UTF-8, copy/move, on all configurations incl. overlay copy-up: after every step every file must read back (random read-buffer size per history) exactly the bytes std::io::Cursor semantics prescribe and metadata must report that length, directories length 0; (B) session cases up to 65537 bytes (200 kB thorough): flush through a still-open handle must be visible to a new reader, read-back with buffer sizes 1,2,7,4096,8192,len,len+1, copy_file/move_file to the same instance, a twin instance and another backend; distinct = distinct observable states (A) + distinct final contents (B)", ENGINE_ASSUMPTIONS)))
+        }
+        "C06" => {
+            let (acc, exhaustive) = c06::run(a);
+            let mut m = meta(a, "complete sweep of every concatenation of up to 6 (quick) / 8 (thorough) tokens from {'/','.','..','a','b.c','é','.h','a.'} joined onto bases of depth 0-3 (exhaustive for that bound), plus random strings over arbitrary characters and random chains of join/parent/root; oracle = independent component-stack resolver + canonical-form predicate + laws (parent-of-join, filename, extension, root, is_root, equality within/across instances, composition); VfsPath and AsyncVfsPath; distinct_nontrivial = distinct argument strings containing a separator or '..'", &["the bounded sweep is complete for its token bound only; beyond it arguments are sampled"]);
+            m.exhaustive = Some(exhaustive);
+            Some((acc, m))
+        }
+        "C18" => {
+            let acc = c18::run(a);
+            let mut m = meta(a, "complete enumeration of the path set of two embedded fixtures (committed harness/fixtures/embed_tree with nested, dotted, multi-byte, prefix-sharing names, empty and binary files; the repository's test/test_directory): every file, implied directory, the root, absent siblings, every proper prefix and one-character extensions of existing names, paths below files; all observers via full snapshots with read buffers 1/7/8192 compared with PhysicalFS on the same folder and with the folder read by std::fs; every public path operation (incl. extreme read/seek scripts) on every such path; every mutator must be refused (NotSupported where a writable backend would accept) and change nothing; distinct = distinct probed paths", &["rust-embed debug-embed feature: bytes really come from the binary", "fixture folders contain no empty directories (an embedded folder cannot represent them)"]);
+            m.exhaustive = Some(true);
+            Some((acc, m))
+        }
+        "C14" => {
+            let acc = c14::run(a);
+            Some((acc, meta(a, "per case: generated content (0..65537 bytes, 200 kB in thorough; non-UTF-8) placed directly or in a lower overlay layer; a read script (read(n)/seek(Start|Current|End, offsets around 0, +-len, +-2^40)/read_to_end) and a write script (create or append; write/seek/flush; append seeks on memory-backed configurations only) are run call by call on the real handle and on std::io::Cursor; results, final position and the bytes published by drop must agree; distinct = distinct (script, length) pairs", &["handles from Mem, Phys, Alt(Mem), Alt(Phys), Ovl (served from lower / copied up), Alt(Ovl)", "error kinds of failing seeks are not compared, only that both fail", "reads are compared after looping to n bytes or EOF (short reads are legal)"])))
         }
         _ => None,
     }
